@@ -40,6 +40,7 @@ type loopInfo struct {
 	headSt    *State
 	variant   *Term
 	bodyPos   token.Pos
+	bodyEnd   token.Pos // closing brace of the loop body (names declared directly in the body are visible to invariants)
 	rangeIt   ssa.Value
 	rangeIdx  *ssa.Alloc
 	backEdges int
@@ -272,8 +273,10 @@ func (fx *FnCtx) findLoops() {
 			switch s := best.(type) {
 			case *ast.ForStmt:
 				li.bodyPos = s.Body.Lbrace + 1
+				li.bodyEnd = s.Body.Rbrace
 			case *ast.RangeStmt:
 				li.bodyPos = s.Body.Lbrace + 1
+				li.bodyEnd = s.Body.Rbrace
 			}
 		}
 		// range iterator / index
@@ -1326,6 +1329,22 @@ func (fx *FnCtx) lookupName(env *Env, name string) (Val, bool, error) {
 						return val, found, err
 					}
 					return Val{}, false, fmt.Errorf("variable %q has no storage in %s", name, fx.key)
+				}
+			}
+		}
+	}
+	// a loop invariant may mention a variable declared directly in the loop's body (not in a nested block):
+	// it denotes the variable's cell, i.e. the value left by the previous iteration (the zero value before the first)
+	if env.loop != nil && fx.pkgInfo != nil && env.loop.bodyPos.IsValid() && env.loop.bodyEnd.IsValid() {
+		if sc := fx.fn.Pkg.Pkg.Scope().Innermost(env.loop.bodyPos); sc != nil {
+			if obj := sc.Lookup(name); obj != nil {
+				if v, ok := obj.(*types.Var); ok && v.Pos() > env.loop.bodyPos && v.Pos() < env.loop.bodyEnd {
+					if a, ok := fx.allocByPos[v.Pos()]; ok && !a.Heap {
+						val, found, err := fx.varVal(env, v)
+						if found || err != nil {
+							return val, found, err
+						}
+					}
 				}
 			}
 		}
